@@ -63,7 +63,7 @@ func init() {
 		"strconv.Quote":                extQuote,
 		"(*sync.Once).Do":              extOnceDo,
 		"(*sync.Pool).Get":             extPoolGet,
-		"(*sync.Pool).Put":             extNop,
+		"(*sync.Pool).Put":             extPoolPut,
 		"(*sync.Mutex).Lock":           extNop,
 		"(*sync.Mutex).Unlock":         extNop,
 		"(*sync.RWMutex).Lock":         extNop,
@@ -1159,10 +1159,30 @@ func (in *Interp) realFile(name string) *vfile {
 }
 
 // sync.Pool: always empty; Get calls New (a legal Pool behaviour).
+// sync.Pool: a pool may or may not hand an object out again; the model always reuses the most
+// recently returned one (LIFO) — the choice that exposes a caller who keeps using, or keeps a
+// slice of, an object it has put back (a single goroutine sees the same natively).
+func extPoolPut(in *Interp, fn *ssa.Function, args []Value) Value {
+	p := args[0].(*Value)
+	if p == nil {
+		in.rtPanic("invalid memory address or nil pointer dereference")
+	}
+	if in.pools == nil {
+		in.pools = map[*Value][]Value{}
+	}
+	in.pools[p] = append(in.pools[p], args[1])
+	return nil
+}
+
 func extPoolGet(in *Interp, fn *ssa.Function, args []Value) Value {
 	p := args[0].(*Value)
 	if p == nil {
 		in.rtPanic("invalid memory address or nil pointer dereference")
+	}
+	if q := in.pools[p]; len(q) > 0 {
+		v := q[len(q)-1]
+		in.pools[p] = q[:len(q)-1]
+		return v
 	}
 	st := fn.Signature.Recv().Type().(*types.Pointer).Elem().Underlying().(*types.Struct)
 	for i := 0; i < st.NumFields(); i++ {
